@@ -45,6 +45,7 @@ fn main() {
         "c19" => c19::run(&args[2..]),
         "c19child" => c19::child(&args[2..]),
         "c19limit" => c19::child_limit(&args[2..]),
+        "c19seq" => c19::child_use_then_set(&args[2..]),
         other => {
             eprintln!("unknown property {other}");
             2
